@@ -417,6 +417,25 @@ def fam_perm(case):
                             'flux/width-container/%s/%s' % (cname, tag), got=alt, want=base_)
                 except Exception as ex:
                     r.check(False, 'no-exception', 'flux/raised/%s/width-%s' % (type(ex).__name__, cname), exc=repr(ex))
+        # bin_model (the tuple a forward model returns) gives what bindown gives, in any native order
+        try:
+            bm = np.asarray(fb.bin_model((c[p].copy(), S[ig][p].copy(), None, None))[1], float)
+            bd = np.asarray(fb.bindown(c[p].copy(), S[ig][p].copy())[1], float)
+            r.check(bool(np.array_equal(bm, bd, equal_nan=True)), 'bin-model', 'flux/bin_model-differs/%s' % tag, got=bm, want=bd)
+        except Exception as ex:
+            r.check(False, 'no-exception', 'flux/raised/%s/bin_model' % type(ex).__name__, exc=repr(ex))
+        if case['grid'] == 'uniform':
+            # one scalar for all native widths, narrower than the spacing (native bins with gaps between them)
+            sw_ = 0.5 * float(w_eff[0])
+            try:
+                out_s = fb.bindown(c[p].copy(), S[ig][p].copy(), grid_width=sw_)
+                got_s = np.asarray(out_s[1], float)
+                gtc_, gtw_ = np.asarray(out_s[0], float), np.asarray(out_s[3], float)      # centres ascending
+                val_s, _, sumw_s, _ = ref.overlap_bin(c[p], np.full(n, sw_), S[ig][p], gtc_, gtw_, None)
+                live_s = sumw_s > TOUCH * gtw_
+                r.eq(got_s[live_s], val_s[live_s], 'value', 'flux/value/scalar-native-width/%s' % tag, atol=1e-13)
+            except Exception as ex:
+                r.check(False, 'no-exception', 'flux/raised/%s/scalar-native-width' % type(ex).__name__, exc=repr(ex))
         if p != sorted(p):
             r.nontrivial = True
     return r
